@@ -256,11 +256,21 @@ class PiecewiseEstimator(BaseEstimator):
         else:
             rnd = None
 
+        if nb_classes is None:
+            rnds = [rnd for _ in estimators]
+        else:
+            # one generator per bucket, seeded sequentially, so that the examples
+            # borrowed by a bucket do not depend on the order the threads run
+            gen = numpy.random.mtrand._rand if rnd is None else rnd
+            rnds = [
+                numpy.random.RandomState(gen.randint(0, 2**31 - 1)) for _ in estimators
+            ]
+
         self.estimators_ = Parallel(
             n_jobs=self.n_jobs, verbose=verbose, prefer="threads"
         )(
             delayed(_fit_piecewise_estimator)(
-                i, estimators[i], X, y, sample_weight, association, nb_classes, rnd
+                i, estimators[i], X, y, sample_weight, association, nb_classes, rnds[i]
             )
             for i in loop
         )
